@@ -215,7 +215,7 @@ static std::vector<Op> writer_ops(const ykc::Shape& sh) {
 
 static void family_scanc(std::vector<hm::Scenario>& out, unsigned oracles, bool with_nv, const char* fam) {
     auto shapes = ykc::all_shapes();
-    const std::vector<std::string> use = {"B3", "B15", "I2_8_8", "I2_1_8", "I3_8_1_8", "I2_8_15", "L1one", "L1_3", "L1full", "L1I2_1_8", "L2", "EMPTYROOT", "I2_1_1", "I3_1_1_1"};
+    const std::vector<std::string> use = {"B3", "B15", "I2_8_8", "I2_1_8", "I3_8_1_8", "I2_8_15", "L1one", "L1_3", "L1full", "L1I2_1_8", "L2", "EMPTYROOT", "I2_1_1", "I3_1_1_1", "B15Lhi", "B15Llo"};
     const std::set<std::string> quick_shapes = {"B3", "B15", "I3_8_1_8", "L1one", "L1full", "L1I2_1_8", "I2_8_15"};
     {
         // interior split cascade with a new root under a scan
@@ -334,7 +334,7 @@ static void family_overwrite(std::vector<hm::Scenario>& out, unsigned oracles) {
 // cursor API under concurrent writers (C10, second sentence)
 static void family_iscanc(std::vector<hm::Scenario>& out, unsigned oracles) {
     auto shapes = ykc::all_shapes();
-    const std::vector<std::string> use = {"B3", "B15", "I3_8_1_8", "I2_8_15", "L1one", "L1_3", "L1full", "L1I2_1_8", "L2", "I2_1_8", "I2_1_1", "I3_1_1_1"};
+    const std::vector<std::string> use = {"B3", "B15", "I3_8_1_8", "I2_8_15", "L1one", "L1_3", "L1full", "L1I2_1_8", "L2", "I2_1_8", "I2_1_1", "I3_1_1_1", "B15Lhi", "B15Llo"};
     const std::set<std::string> quick_shapes = {"B15", "I3_8_1_8", "L1one", "L1full", "L1I2_1_8", "L1_3"};
     for (auto& sn : use) {
         const ykc::Shape* sh = ykc::find_shape(shapes, sn);
@@ -438,6 +438,22 @@ static void family_struct(std::vector<hm::Scenario>& out, unsigned oracles, cons
     P("L1one", {{mk(REMOVE, ykc::P8() + "a")}, {mk(PUT, ykc::P8() + "b", 2)}}, true);
     P("L1one", {{mk(REMOVE, ykc::P8() + "a")}, {mk(PUT, ykc::P8() + "a", 2)}}, true);
     P("L1one", {{mk(REMOVE, ykc::P8() + "a")}, {mk(REMOVE, "10")}}, true);
+    // two inserts that both have to create the same next layer (one or two levels deep), also on a tree without root
+    P("B3", {{mk(PUT, ykc::P8() + "a", 1)}, {mk(PUT, ykc::P8() + "b", 2)}}, true);
+    P("B3", {{mk(PUT, ykc::P8() + ykc::P8() + "x", 1)}, {mk(PUT, ykc::P8() + ykc::P8() + "y", 2)}}, true);
+    P("B3", {{mk(PUT, ykc::P8() + ykc::P8() + "x", 1)}, {mk(PUT, ykc::P8() + "b", 2)}}, true);
+    P("NOROOT", {{mk(PUT, ykc::P8() + "a", 1)}, {mk(PUT, ykc::P8() + "b", 2)}}, true);
+    P("EMPTYROOT", {{mk(PUT, ykc::P8() + ykc::P8() + "x", 1)}, {mk(PUT, ykc::P8() + "b", 2)}}, true);
+    P("B15", {{mk(PUT, ykc::P8() + "a", 1)}, {mk(PUT, ykc::P8() + "b", 2)}}, true);
+    P("L1one", {{mk(REMOVE, ykc::P8() + "a")}, {mk(PUT, ykc::P8() + ykc::P8() + "x", 2)}}, true);
+    // parent border of a layer splits (re-parenting the layer root) while the layer is emptied / split / extended
+    for (const char* shn : {"B15Lhi", "B15Llo"}) {
+        std::string pfx = std::string(shn) == "B15Lhi" ? ykc::P8() : std::string("!!!!!!!!");
+        P(shn, {{mk(REMOVE, pfx + "a")}, {mk(PUT, "075", 2)}}, true);
+        P(shn, {{mk(PUT, pfx + "b", 1)}, {mk(PUT, "075", 2)}}, true);
+        P(shn, {{mk(REMOVE, pfx + "a"), mk(PUT, pfx + "a", 2)}, {mk(PUT, "075", 2)}}, false);
+        P(shn, {{mk(REMOVE, pfx + "a")}, {mk(PUT, "075", 2)}, {mk(PUT, pfx + "b", 2)}}, false);
+    }
     // root emptied by two removers, revived by a third operation
     P("B2", {{mk(REMOVE, "10")}, {mk(REMOVE, "20")}}, true);
     P("B2", {{mk(REMOVE, "10")}, {mk(REMOVE, "20"), mk(PUT, "15", 2)}}, true);
@@ -487,7 +503,7 @@ static void family_struct(std::vector<hm::Scenario>& out, unsigned oracles, cons
             bool splits = false;
             for (auto& pr : progs) {
                 for (auto& o : pr) {
-                    if (o.kind == PUT && (sh->name == "B15" || sh->name == "L1full" || sh->name == "I2_8_15" || sh->name == "IFULL" || sh->name == "I4_8_15_1_8")) splits = true;
+                    if (o.kind == PUT && (sh->name == "B15" || sh->name == "B15Lhi" || sh->name == "B15Llo" || sh->name == "L1full" || sh->name == "I2_8_15" || sh->name == "IFULL" || sh->name == "I4_8_15_1_8")) splits = true;
                 }
             }
             bool few_ops = progs.size() == 2 && progs[0].size() == 1 && progs[1].size() == 1;
